@@ -26,8 +26,25 @@ func (r *Runtime) newArrayObject() *arrayObject {
 func setArrayValues(a *arrayObject, values []Value) *arrayObject {
 	a.values = values
 	a.length = uint32(len(values))
-	a.objCount = len(values)
+	objCount := 0
+	for _, v := range values {
+		if v != nil {
+			objCount++
+		}
+	}
+	a.objCount = objCount
 	return a
+}
+
+// setArrayValuesGeneric defines the values one by one, skipping the holes (nil), and sets the length. It is used instead of
+// setArrayValues() if the target is not (or no longer) an array whose values can be set directly.
+func setArrayValuesGeneric(a *Object, values []Value) {
+	for k, v := range values {
+		if v != nil {
+			createDataPropertyOrThrow(a, intToValue(int64(k)), v)
+		}
+	}
+	a.self.setOwnStr("length", intToValue(int64(len(values))), true)
 }
 
 func setArrayLength(a *arrayObject, l int64) *arrayObject {
@@ -793,7 +810,7 @@ func (r *Runtime) arrayproto_map(call FunctionCall) Value {
 	}
 	a := arraySpeciesCreate(o, length)
 	if _, stdSrc := o.self.(*arrayObject); stdSrc {
-		if arr, ok := a.self.(*arrayObject); ok {
+		if r.checkNewStdArrayObj(a) != nil {
 			values := make([]Value, length)
 			for k := int64(0); k < length; k++ {
 				idx := valueInt(k)
@@ -803,7 +820,12 @@ func (r *Runtime) arrayproto_map(call FunctionCall) Value {
 					values[k] = callbackFn(fc)
 				}
 			}
-			setArrayValues(arr, values)
+			// the callback could have modified the result array
+			if arr := r.checkNewStdArrayObj(a); arr != nil {
+				setArrayValues(arr, values)
+			} else {
+				setArrayValuesGeneric(a, values)
+			}
 			return a
 		}
 	}
@@ -829,7 +851,7 @@ func (r *Runtime) arrayproto_filter(call FunctionCall) Value {
 			Arguments: []Value{nil, nil, o},
 		}
 		if _, stdSrc := o.self.(*arrayObject); stdSrc {
-			if arr := r.checkStdArrayObj(a); arr != nil {
+			if r.checkNewStdArrayObj(a) != nil {
 				var values []Value
 				for k := int64(0); k < length; k++ {
 					idx := valueInt(k)
@@ -841,7 +863,12 @@ func (r *Runtime) arrayproto_filter(call FunctionCall) Value {
 						}
 					}
 				}
-				setArrayValues(arr, values)
+				// the callback could have modified the result array
+				if arr := r.checkNewStdArrayObj(a); arr != nil {
+					setArrayValues(arr, values)
+				} else {
+					setArrayValuesGeneric(a, values)
+				}
 				return a
 			}
 		}
@@ -1527,12 +1554,17 @@ func (r *Runtime) array_from(call FunctionCall) Value {
 		}
 		iter := r.getIterator(items, usingIterator)
 		if mapFn == nil {
-			if a := r.checkStdArrayObjWithProto(arr); a != nil {
+			if r.checkNewStdArrayObj(arr) != nil {
 				var values []Value
 				iter.iterate(func(val Value) {
 					values = append(values, val)
 				})
-				setArrayValues(a, values)
+				// the iterator could have modified the result array
+				if a := r.checkNewStdArrayObj(arr); a != nil {
+					setArrayValues(a, values)
+				} else {
+					setArrayValuesGeneric(arr, values)
+				}
 				return arr
 			}
 		}
@@ -1554,12 +1586,17 @@ func (r *Runtime) array_from(call FunctionCall) Value {
 			arr = r.newArrayValues(nil)
 		}
 		if mapFn == nil {
-			if a := r.checkStdArrayObjWithProto(arr); a != nil {
+			if r.checkNewStdArrayObj(arr) != nil {
 				values := make([]Value, l)
 				for k := int64(0); k < l; k++ {
 					values[k] = nilSafe(arrayLike.self.getIdx(valueInt(k), nil))
 				}
-				setArrayValues(a, values)
+				// reading the elements could have modified the result array
+				if a := r.checkNewStdArrayObj(arr); a != nil {
+					setArrayValues(a, values)
+				} else {
+					setArrayValuesGeneric(arr, values)
+				}
 				return arr
 			}
 		}
